@@ -97,11 +97,40 @@ func boolFields(nt *types.Named) []FieldRef {
 	if nt == nil {
 		return nil
 	}
-	st := nt.Underlying().(*types.Struct)
-	for i := 0; i < st.NumFields(); i++ {
-		if b, ok := st.Field(i).Type().Underlying().(*types.Basic); ok && b.Kind() == types.Bool {
-			out = append(out, FieldRef{nt.Obj().Name(), st.Field(i).Name()})
+	for _, f := range flatFields(nt) {
+		if b, ok := f.Type.Underlying().(*types.Basic); ok && b.Kind() == types.Bool {
+			out = append(out, FieldRef{nt.Obj().Name(), f.Name})
 		}
+	}
+	return out
+}
+
+type flatField struct {
+	Name string // dotted through uniquely embedded sub-structs
+	Type types.Type
+}
+
+// flatFields lists the fields of a struct type, looking into uniquely embedded sub-structs (whose fields count as the
+// outer struct's, see uniqueEmbedding).
+func flatFields(nt *types.Named) []flatField {
+	var out []flatField
+	var walk func(st *types.Struct, prefix string, depth int)
+	walk = func(st *types.Struct, prefix string, depth int) {
+		for i := 0; i < st.NumFields(); i++ {
+			f := st.Field(i)
+			if n, ok := types.Unalias(f.Type()).(*types.Named); ok && depth < 3 {
+				if _, uniq := uniqueEmbedding[typeNameOf(n)]; uniq {
+					if inner, isS := n.Underlying().(*types.Struct); isS {
+						walk(inner, prefix+f.Name()+".", depth+1)
+						continue
+					}
+				}
+			}
+			out = append(out, flatField{prefix + f.Name(), f.Type()})
+		}
+	}
+	if st, ok := nt.Underlying().(*types.Struct); ok {
+		walk(st, "", 0)
 	}
 	return out
 }
@@ -153,6 +182,16 @@ func nonNilError(v ssa.Value, at ssa.Instruction, depth int) (bool, string) {
 			return false, "constant nil"
 		}
 	case *ssa.Call:
+		// ctx.Err() after a completed receive from the same context's Done(): non-nil by the context contract
+		if x.Call.IsInvoke() && x.Call.Method.Name() == "Err" && at != nil {
+			cd := desc(x.Call.Value)
+			if recvDominates(at, func(ch ssa.Value) bool {
+				dc, ok := origin(ch).(*ssa.Call)
+				return ok && dc.Call.IsInvoke() && dc.Call.Method.Name() == "Done" && desc(dc.Call.Value) == cd
+			}) {
+				return true, "ctx.Err() after <-ctx.Done()"
+			}
+		}
 		n := calleeName(x)
 		switch n {
 		case "errors.New", "fmt.Errorf", "google.golang.org/grpc/status.Errorf", "google.golang.org/grpc/status.Error":
